@@ -202,7 +202,7 @@ def dec_dyn(data):
             sz = dec_size(item(8))
             if sz < 0 or sz > PS_MAX:
                 raise ValueError
-            name = item(sz)
+            name = item(sz) if sz else b""      # the root resource has the empty name
             sz2 = dec_size(item(8))
             if sz2 < 0 or sz2 > PS_MAX:
                 raise ValueError
@@ -467,7 +467,7 @@ def raw_spec(e, before, files_before, proto, listen):
         return (dyn, obs, tuple(x for x in cnt if x[0] != name))
     if e[0] == "UR":
         name, pkt = unhex(e[1]), unhex(e[2])
-        if len(name) == 0 or len(pkt) == 0 or len(name) > PS_MAX or len(pkt) > PS_MAX:
+        if len(pkt) == 0 or len(name) > PS_MAX or len(pkt) > PS_MAX:
             return None
         return (tuple(r for r in dyn if r[1] != name) + ((proto, name, pkt),), obs, cnt)
     if e[0] == "UX":
@@ -622,9 +622,13 @@ def check(line, info):
                                     bad = (nm, s["value"], ms[nm])
                                     break
                         if bad:
+                            # a counter line longer than the readers' 1500-byte buffer cuts the
+                            # file short: known finding K17b (only then)
+                            long_name = any(len(n) > 1487 for sp in snaps for n in sp.dyn)
                             out.append(("kill after %d stdio calls: the first Observe value sent after "
                                         "restart for resource %r is %d, not greater than %d sent before"
-                                        % ((k,) + bad), None))
+                                        % ((k, bad[0][:40]) + bad[1:]),
+                                        "cnt_long_name" if long_name else None))
                             break
                 break
             # a process that was killed (or ended) in the middle of the history
